@@ -1,6 +1,9 @@
 use std::fmt::Display;
 use std::ops::{Add, AddAssign, RangeInclusive};
+#[cfg(not(yui_verif))]
 use std::sync::RwLock;
+#[cfg(yui_verif)]
+use yui::verif::sync::RwLock;
 
 use ahash::{AHashMap, AHashSet};
 use auto_impl_ops::auto_ops;
@@ -452,9 +455,6 @@ where R: Ring, for<'x> &'x R: RingOps<R> {
                 let id_f = f.connected(&Cob::id(v0.tng())) * e; // (-1)^{deg(k0)} D(1, f) 
                 (k0_l0, k0_l1, id_f.part_eval(&h, &t))
             });
-
-            #[cfg(yui_verif)]
-            yui::verif::point("tng:connect-edges:before-write", Some(&|| lock.try_write().is_ok()));
 
             let mut this = lock.write().unwrap();
 
